@@ -35,6 +35,8 @@ THEOREMS = [
     "Qentem.Props.C09.negScale_error_bound",
     "Qentem.Props.C09.strToNum_digits_to_end",
     "Qentem.Props.C09.real_within_one_ulp_negexp",
+    "Qentem.Props.C09.real_within_one_ulp_frac_end",
+    "Qentem.Props.C09.real_within_one_ulp_frac_exp",
 ]
 OPEN = ["Qentem.Props.C09.real_within_one_ulp (proved for integer mantissas of <= 19 digits with exponent >= 0: real_within_one_ulp_pos; open for fractions / negative net exponents, where negScale_error_bound gives the pipeline error; searched by the exact-Rat oracle on the C++ results)",
         "Qentem.Props.C09.overflow_reported (proved for the same class inside real_within_one_ulp_pos and at the power-function level for every 64-bit mantissa; the general numeral statement stays open only because the parse of fraction+exponent shapes is not connected)"]
